@@ -41,6 +41,7 @@ func RunC17W(t *testing.T) {
 		}
 		labels := map[string]int{}
 		var kCalls []hookCall
+		kVetoedBlock := false
 		if rt != nil {
 			h, _ := genLogK(rt, w, 8, 30, 60)
 			ops = h.OpsLog()
@@ -85,6 +86,7 @@ func RunC17W(t *testing.T) {
 				st, _ := h.Exec(o)
 				kCalls = append(kCalls, st.Res.HookCalls...)
 				if st.Op.Kind == OpBlock && !st.Res.OK {
+					kVetoedBlock = st.Res.VetoIssued
 					break
 				}
 			}
@@ -101,6 +103,11 @@ func RunC17W(t *testing.T) {
 		}
 		labels["c17w:transactions-lost-to-sequence-mismatch"] += a.SeqMismatch
 		var v *Violation
+		if kVetoedBlock && a.Failed == "" {
+			// the listener refused a settlement: the keeper reports it, so must the application's block
+			vv := viol("C17/wiring/veto-not-reported-by-the-application", "a listener returned an error from %s during block processing; at keeper level block processing reports it, but the application's FinalizeBlock succeeded for every block of the log", plan.Method)
+			v = &vv
+		}
 		for l := 0; l < L && v == nil; l++ {
 			want, got := callsOf(kCalls, l), callsOf(aCalls, l)
 			if strings.Join(want, "\n") != strings.Join(got, "\n") {
